@@ -84,6 +84,30 @@ class FluxSetup:
         return ys
 
 
+class IterateNames:
+    """gives every permeate-composition iterate of the flux loop a fresh name (defining equality joins the path
+    condition); `names` collects them in call order"""
+
+    def __init__(self, patches):
+        from pyvaporation.pervaporation import pervaporation as pvmod
+        from .symx import named
+        self.names = []
+        orig = pvmod.get_permeate_composition_from_fluxes
+        me = self
+
+        def wrapped(fluxes):
+            c = orig(fluxes)
+            if isinstance(c.p, SReal) and not z3.is_const(c.p.t):
+                c.p = named(c.p, "y")
+            me.names.append(c.p)
+            return c
+
+        patches.set(pvmod, "get_permeate_composition_from_fluxes", wrapped)
+
+    def reset(self):
+        self.names = []
+
+
 class LoopCounter:
     """counts driving-force evaluations of one flux calculation and cuts the path beyond the bound"""
 
